@@ -120,7 +120,7 @@ func runC13(c *eng.Ctx, tier string) {
 					c.Undecided("R-C13-1", run, sel.Pos(), "shutdown branch of the poller", "cannot locate the Done case")
 					continue
 				}
-				hit, path := eng.Search(run, branch.Instrs[0], nil, isFlush, eng.IsReturn)
+				hit, path := eng.SearchBlock(run, branch, nil, isFlush, eng.IsReturn)
 				if isFlush(branch.Instrs[0]) {
 					hit = nil
 				}
@@ -724,7 +724,7 @@ func c13Validity(c *eng.Ctx) {
 				found = true
 				// on this edge every path ends in `return false` without re-entering the loop
 				succ := ifi.Block().Succs[i]
-				bad, _ := eng.Search(f, succ.Instrs[0], nil, nil, func(x ssa.Instruction) bool {
+				bad, _ := eng.SearchBlock(f, succ, nil, nil, func(x ssa.Instruction) bool {
 					if x.Block() == loop.Header {
 						return true
 					}
